@@ -149,7 +149,16 @@ class Check:
         """run corr/drv_<driver>.py in the implementation environment; returns its meta dict (or None)"""
         out = os.path.join(self.work, "drv_%s_%d" % (driver, len(self.corr["drivers"])))
         os.makedirs(out, exist_ok=True)
-        cmd = [vlib.PY, os.path.join(vlib.VERIF, "corr", "drv_%s.py" % driver), "--prop", self.prop, "--tier", self.tier,
+        tier = self.tier
+        try:
+            import fingerprint
+            ch = fingerprint.changed_for(driver)
+        except Exception as e:  # noqa
+            ch = ["<fingerprint tool failed: %r>" % e]
+        if ch and tier == "quick":
+            tier = "thorough"
+            self.notes.append("source of %s differs from the fingerprint baseline: driver %s uses the thorough corpus" % (", ".join(ch[:6]), driver))
+        cmd = [vlib.PY, os.path.join(vlib.VERIF, "corr", "drv_%s.py" % driver), "--prop", self.prop, "--tier", tier,
                "--seed", str(self.seed), "--out", out] + (args or [])
         t = time.time()
         try:
